@@ -68,7 +68,7 @@ Definition msent (s : mst) (p : pkt) (rest : list pkt) (k : nat) : mst :=
   {| m_exp := rest; m_over := m_over s; m_out := p; m_tsend := m_now s; m_count := k;
      m_now := m_now s; m_mode := MWait; m_fail := m_fail s |}.
 
-Definition mstep (tmo_ : Z) (retries_ : nat) (s : mst) (e : tr) : mst :=
+Definition mstep (tmo_ : Z) (retries_ : nat) (proc_ : Z) (s : mst) (e : tr) : mst :=
   match m_fail s with Some _ => s | None =>
   match m_mode s, e with
   (* the catch-all exception branch must never be taken *)
@@ -82,8 +82,9 @@ Definition mstep (tmo_ : Z) (retries_ : nat) (s : mst) (e : tr) : mst :=
       end
   (* waiting for the acknowledgement of the outstanding packet *)
   | MWait, TRecv t a d =>
-      if negb (t <? m_tsend s + tmo_) then mfail s "C02:delivery_after_deadline" else
-      let now' := Z.max (m_now s) t in
+      (* nothing is taken off the socket once the try's time is over, whenever it arrived *)
+      if negb ((t <? m_tsend s + tmo_) && (m_now s <? m_tsend s + tmo_)) then mfail s "C02:delivery_after_deadline" else
+      let now' := Z.max (m_now s) t + proc_ in
       if negb (a =? client)%N then mset s (MForeign a) now' else
       match classify current d with
       | CAck n => if (n =? want (m_out s))%N then mset s MNext now' else mset s MWait now'
@@ -92,7 +93,8 @@ Definition mstep (tmo_ : Z) (retries_ : nat) (s : mst) (e : tr) : mst :=
       | CInternal => mfail s "C09:internal"
       end
   | MWait, TTimeout t =>
-      if negb (t =? m_tsend s + tmo_) then mfail s "C02:timeout_at_deadline"
+      (* at the deadline, or - when handling a datagram ran past it - as soon as that is done *)
+      if negb (t =? Z.max (m_tsend s + tmo_) (m_now s)) then mfail s "C02:timeout_at_deadline"
       else if (m_count s <? S retries_)%nat then mset s MResend t else mset s MCloseF t
   | MWait, TSend t a p =>
       if (a =? client)%N then
@@ -162,7 +164,7 @@ Definition minit (c : tcase) : mst :=
      m_mode := MStart; m_fail := None |}.
 
 Definition monitor (c : tcase) (l : list tr) : list string :=
-  let s := fold_left (mstep (tmo (t_cfg c)) (t_retries c)) l (minit c) in
+  let s := fold_left (mstep (tmo (t_cfg c)) (t_retries c) (t_proc c)) l (minit c) in
   match m_fail s with
   | Some w => [w]
   | None => match m_mode s with MEnd => [] | _ => ["C20:trace_incomplete"%string] end
@@ -175,6 +177,8 @@ Fixpoint last_time (l : list tr) (acc : Z) : Z :=
   | TSend t _ _ :: r | TRecv t _ _ :: r | TTimeout t :: r => last_time r (Z.max acc t)
   | _ :: r => last_time r acc
   end.
+(* a try lasts for the time-out plus at most the handling of the one datagram that was taken
+   off the socket just before the deadline *)
 Definition time_bound (c : tcase) : Z :=
-  Z.of_nat (List.length (fst (expected c))) * (Z.of_nat (S (t_retries c)) * tmo (t_cfg c)).
+  Z.of_nat (List.length (fst (expected c))) * (Z.of_nat (S (t_retries c)) * (tmo (t_cfg c) + t_proc c)).
 Definition within_time (c : tcase) (l : list tr) : bool := last_time l 0 <=? time_bound c.
